@@ -3,8 +3,9 @@ CONSTANTS
   NConn = 2
   MaxIn = 3
   MaxSteps = 99
-  Classes = {"GoodKA", "GoodClose", "BadLine", "BadHeader", "BadCL", "BadChunk", "BadEscape", "Nul", "TlsHello", "Truncate", "Rest"}
+  Classes = {"GoodKA", "GoodClose", "BadLine", "BadHeader", "BadCL", "BadChunk", "BadEscape", "Nul", "TlsHello", "TlsCut", "Truncate", "Rest"}
   Racing = TRUE
+  Linger = TRUE
   DefectSets = {{}}
 INVARIANT TypeOK
 INVARIANT Conforms
